@@ -159,4 +159,26 @@ example : mpz_combit ⟨true, [B - 32, B - 1]⟩ 5 = ⟨true, [0, 0, 1]⟩ := by
 example : mpz_combit ⟨true, [0, 0, 1]⟩ 5 = ⟨true, [B - 32, B - 1]⟩ := by decide
 example : mpz_combit ⟨false, [0, 1]⟩ 64 = ⟨false, []⟩ := by decide
 
+/-! ## popcount -/
+
+/-- mpn_popcount: the number of one bits of the vector (= sum of the binary digits of its value). -/
+theorem mpn_popcount_spec (u : List Nat) (hu : Limbs u) : mpn_popcount u = (Nat.digits 2 (val u)).sum := by
+  rw [mpn_popcount_eq u hu, popcount_eq_digits]
+example : mpn_popcount [B - 1, 0, 5] = 66 := by decide
+
+/-- mpn_hamdist: the number of differing bit positions. -/
+theorem mpn_hamdist_spec (u v : List Nat) (hu : Limbs u) (hv : Limbs v) (hl : u.length = v.length) :
+    mpn_hamdist u v = (Nat.digits 2 (val u ^^^ val v)).sum := by
+  obtain ⟨e, l, _⟩ := xor_n_spec u v hu hv hl
+  rw [← e, ← mpn_popcount_spec _ l]; rfl
+example : mpn_hamdist [B - 1, 1] [0, 3] = 65 := by decide
+
+/-- mpz_popcount: the bit count for non-negative operands, the largest mp_bitcnt_t for negative ones (whose
+    two's-complement expansion has infinitely many ones). -/
+theorem popcount_spec (u : Z) (hu : u.WF) :
+    mpz_popcount u = if u.toInt < 0 then BITCNT_MAX else (Nat.digits 2 u.toInt.toNat).sum := by
+  rw [mpz_popcount_eq u hu, popcount_eq_digits]
+example : mpz_popcount ⟨false, [B - 1, 0, 5]⟩ = 66 ∧ mpz_popcount ⟨true, [1]⟩ = 2 ^ 64 - 1 ∧
+    mpz_popcount ⟨false, []⟩ = 0 := by decide
+
 end Mpir.Bits
